@@ -365,7 +365,7 @@ func (o *orch) plan(scale float64) counts {
 			c = counts{plain: 600000, maxOps: 40, chunk: 2500, tupleEvery: 25}
 		}
 	case "C07":
-		c = counts{plain: 8000, race: 2400, cold: 480, sweep: 16, chunk: 125}
+		c = counts{plain: 8000, race: 2400, cold: 480, sweep: 32, chunk: 125}
 		if thorough {
 			c = counts{plain: 400000, race: 60000, cold: 12000, sweep: 64, chunk: 1000, tupleEvery: 10}
 		}
